@@ -445,6 +445,7 @@ class Engine:
         self.solver_s = 0.0
         self.proved = 0
         self.q_unsat = 0
+        self.unconfirmed = []
 
     # ---- solver helpers ------------------------------------------------------------------------
     def _check(self, *extra):
@@ -516,7 +517,7 @@ class Engine:
         try:
             if isinstance(cond, SymBool):
                 self.solver.add(z3.Not(cond.e))
-            for _ in range(5):
+            for _ in range(63):
                 if not self._declared:
                     break
                 self.solver.add(z3.Or(*[v != cands[-1][n] for n, v in self._declared.items()]))
@@ -603,6 +604,8 @@ class Engine:
             if self.paths >= max_paths:
                 raise Inconclusive(f"path budget {max_paths} exhausted: exploration incomplete")
         self.wall = time.time() - t0
+        if self.unconfirmed and not self.failures:
+            raise Inconclusive(self.unconfirmed[0])
         return self
 
     def _finish_path(self, fn):
@@ -621,9 +624,13 @@ class Engine:
                 confirmed = values
                 break
             if confirmed is None:
-                raise Inconclusive(why)
+                # keep exploring: another path may exhibit the same failure with a replayable input
+                self.unconfirmed.append(why)
+                continue
             if not any(m == msg for m, _ in self.failures):
                 self.failures.append((msg, confirmed))
+        if self._pending:
+            return      # a confirmed violation on this path: nothing further to validate
         if self.validate:
             if self._check() != "sat":
                 return
